@@ -13,6 +13,7 @@ From Coq Require Import String List Bool ZArith.
 From GW Require Import Base.Res Base.GoStr Base.Json Gql.Syntax Gql.Spec Gw.Points Gw.FedCheck
      Gw.Locate Gw.Plan Proofs.CodecProofs Proofs.PointsProofs Proofs.FindProofs Proofs.PlanProofs Proofs.PlanCount Proofs.StitchSound Proofs.JoinSound Proofs.GroupSound Proofs.StepJoin Proofs.StepPoints
      Proofs.StepScrub Proofs.DeepPoints Proofs.ExactJoin Proofs.FedCanonical Proofs.PlanCanonical Proofs.FedTheorem
+     Proofs.DeepScrub Proofs.FlattenPath Proofs.DeepFlatten Proofs.SingleService Proofs.FedTheoremObj Proofs.FedTheorem2
      Gw.Locate Gw.Plan Gw.Scrub Gw.Fed.
 Import ListNotations.
 Open Scope string_scope.
@@ -305,3 +306,88 @@ Proof.
   exact (gateway_answers_canonical_join prios urls ft sh w vars Hw rootT T t ka kn args l1 l2 nn locA locB os client target n).
 Qed.
 Print Assumptions C01_gateway_answers_the_canonical_join.
+
+(* ... with the executor's own input and the scrubber: the flattened selection is the model of
+   graphql.ApplyFragments on the parent's selection under the shapes the schema declares; after the
+   step and the scrubber every object at the end of the path holds exactly the reference answer to
+   l1 and l2. *)
+Theorem C01_step_at_any_depth_with_the_executors_input :
+  forall w frags vars, atomic_world w vars ->
+  forall l1 l2, good (l1 ++ [id_sel]) -> good l2 -> compat (l1 ++ [id_sel]) l2 -> ~ In "id" (map key_of l2) ->
+  forall fuel sh f e r sels po rt,
+  pathsel l1 (e :: r) sels -> typed_path sh rt (e :: r) -> length (e :: r) <= f -> shaped w vars (e :: r) po rt ->
+  exists m ps acc' acc'',
+    exec (S (F fuel (length r))) w frags vars po rt sels = JObj m /\
+    find_insertion_points (map pe_key (e :: r)) (flatten f sh rt sels) m [] = Ok ps /\
+    join_all w frags vars l2 fuel ps (JObj m) = Ok acc' /\
+    scrub_points "id" acc' ps = Ok acc'' /\
+    Forall2 (holds_clean w frags vars l1 l2 fuel acc'') ps (leaves w vars (e :: r) po rt).
+Proof. exact deep_step_with_flattened_selection. Qed.
+Print Assumptions C01_step_at_any_depth_with_the_executors_input.
+
+(* Documents served by one service.  Every field of the operation -- at every depth, through
+   inline fragments, whatever its arguments, directives, aliases or repeated keys -- is placed at
+   service A: from the gateway at the top, from A below (n bounds the nesting).  Then the whole-path
+   model answers exactly what the reference answers. *)
+Theorem C01_single_service_documents_are_transparent :
+  forall prios urls ft sh w vars A n root s r client,
+  A <> "" ->
+  Forall (top_at prios urls A root) (s :: r) -> Forall (at1 prios urls ft A n root) (s :: r) ->
+  gateway_answer (S (S n)) prios urls ft sh w vars root (s :: r) client =
+  Ok (exec (S (S n)) w [] vars None root (s :: r)).
+Proof. exact single_service_transparent. Qed.
+Print Assumptions C01_single_service_documents_are_transparent.
+
+(* The canonical join when the root field answers one object ({ me { name photo } }). *)
+Theorem C01_gateway_answers_the_canonical_join_on_one_object :
+  forall prios urls ft sh w vars, atomic_world w vars ->
+  forall rootT T t ka kn args l1 l2 nn locA locB o client target n,
+  ka <> "" -> clean_key ka ->
+  locA <> "" -> locA <> locB ->
+  choose prios urls rootT kn "" = Ok locA -> choose prios urls rootT kn locA = Ok locA ->
+  assoc (url_key rootT kn) ft = Some T ->
+  Forall (at_loc prios urls T locA locA) l1 -> Forall (at_loc prios urls T locA locB) l2 ->
+  Forall (at_loc prios urls T locB locB) l2 -> l2 <> [] ->
+  shape_of (rootT ++ "." ++ kn) sh = Some (t, (false, nn)) ->
+  good (l1 ++ [id_sel]) -> good l2 -> compat (l1 ++ [id_sel]) l2 ->
+  ~ In "id" (map key_of l2) -> no_id_var l2 ->
+  descend [ka] client = Ok target -> natural_id target = false ->
+  resolve w vars None rootT (to_c (Field ka kn args [] (l1 ++ [id_sel]))) = FRef (b_id o) ->
+  find_obj (b_id o) (w_objs w) = Some o ->
+  type_matches w T (b_type o) = true ->
+  flat_at w vars o l2 ->
+  gateway_answer (S (S (S n))) prios urls ft sh w vars rootT [Field ka kn args [] (l1 ++ l2)] client =
+  Ok (exec (S (S (S n))) w [] vars None rootT [Field ka kn args [] (l1 ++ l2)]).
+Proof.
+  intros prios urls ft sh w vars Hw rootT T t ka kn args l1 l2 nn locA locB o client target n.
+  exact (gateway_answers_canonical_join_obj prios urls ft sh w vars Hw rootT T t ka kn args l1 l2 nn locA locB o client target n).
+Qed.
+Print Assumptions C01_gateway_answers_the_canonical_join_on_one_object.
+
+(* The canonical join when the part that stays at the root field's service is any selection tree:
+   nested objects and lists, inline fragments, arguments, directives (n bounds its nesting). *)
+Theorem C01_gateway_answers_the_canonical_join_with_nested_selections :
+  forall prios urls ft sh w vars, atomic_world w vars ->
+  forall rootT T t ka kn args l1 l2 nn locA locB os client target n,
+  ka <> "" -> clean_key ka ->
+  locA <> "" -> locA <> locB ->
+  choose prios urls rootT kn "" = Ok locA -> choose prios urls rootT kn locA = Ok locA ->
+  assoc (url_key rootT kn) ft = Some T ->
+  Forall (at1 prios urls ft locA n T) l1 -> Forall (at_loc prios urls T locA locB) l2 ->
+  Forall (at_loc prios urls T locB locB) l2 -> l2 <> [] ->
+  shape_of (rootT ++ "." ++ kn) sh = Some (t, (true, nn)) ->
+  good (l1 ++ [id_sel]) -> good l2 -> compat (l1 ++ [id_sel]) l2 ->
+  ~ In "id" (map key_of l2) -> no_id_var l2 ->
+  descend [ka] client = Ok target -> natural_id target = false ->
+  resolve w vars None rootT (to_c (Field ka kn args [] (l1 ++ [id_sel]))) = FList (map (fun o => FRef (b_id o)) os) ->
+  Forall (fun o => find_obj (b_id o) (w_objs w) = Some o) os ->
+  (Z.of_nat (length os) <= int64_max)%Z ->
+  Forall (fun o => type_matches w T (b_type o) = true) os ->
+  Forall (fun o => flat_at w vars o l2) os ->
+  gateway_answer (S (S (S n))) prios urls ft sh w vars rootT [Field ka kn args [] (l1 ++ l2)] client =
+  Ok (exec (S (S (S n))) w [] vars None rootT [Field ka kn args [] (l1 ++ l2)]).
+Proof.
+  intros prios urls ft sh w vars Hw rootT T t ka kn args l1 l2 nn locA locB os client target n.
+  exact (gateway_answers_canonical_join_nested prios urls ft sh w vars Hw rootT T t ka kn args l1 l2 nn locA locB os client target n).
+Qed.
+Print Assumptions C01_gateway_answers_the_canonical_join_with_nested_selections.
